@@ -16,6 +16,8 @@ mod c13;
 mod c15;
 mod c16;
 mod c17;
+mod c18;
+mod c19;
 mod crdt;
 mod gen;
 mod stores;
@@ -61,6 +63,8 @@ fn main() {
             "C15" => c15::replay(&case),
             "C16" => c16::replay(&case),
             "C17" => c17::replay(&case),
+            "C18" => c18::replay(&case),
+            "C19" => c19::replay(&case),
             _ => {
                 eprintln!("no replay for property {prop:?}");
                 2
@@ -91,6 +95,8 @@ fn main() {
         "C15" => c15::run(tier),
         "C16" => c16::run(tier),
         "C17" => c17::run(tier),
+        "C18" => c18::run(tier),
+        "C19" => c19::run(tier),
         _ => usage(),
     };
     std::process::exit(code);
